@@ -2,7 +2,7 @@
 
 Whatever an attacker does to ciphertext or key, an ideal cipher yields *some* plaintext pt'.  PGPy must accept exactly the pt'
 that RFC 4880 5.13 / 5.1 accept and return exactly that payload; everything else raises."""
-from vlib.h import ob
+from vlib.h import ob, native
 from harness.encfix import *          # noqa
 from harness import encfix
 from pgpy import PGPMessage, PGPKey
@@ -55,6 +55,29 @@ def seipd_accept(bs: int, pt: bytes) -> bool:
     except PGPDecryptionError:
         return not rfc_accepts(pt, bs)
     return rfc_accepts(pt, bs) and bytes(out) == bytes(pt[bs + 2:])
+
+
+@ob('O4.1b', 'the verdict on an integrity-protected packet does not depend on earlier attempts on the same object: decrypting the same packet object again '
+             '(a "decryption failed - retry?" flow) raises again if it raised, and returns the same octets if it returned',
+    'decrypted octet string symbolic, length 32..33 (block size 8); same key both times; cipher stand-in hands back the same string', cond_timeout={'q': 280, 't': 900},
+    partitions=[['len(pt) == 32'], ['len(pt) == 33']])
+def seipd_retry(pt: bytes) -> bool:
+    """
+    pre: 32 <= len(pt) <= 33
+    post: _
+    """
+    Cipher.reset()
+    Cipher.adversarial = [bytes(pt), bytes(pt), bytes(pt)]
+    pkt = IntegrityProtectedSKEDataV1()
+    pkt.ct = bytearray(b'\x01\x02\x03')
+    outs = []
+    for attempt in range(2):
+        try:
+            outs.append(bytes(pkt.decrypt(b'k' * 16, SymmetricKeyAlgorithm.CAST5)))
+        except PGPDecryptionError:
+            outs.append(None)
+    Cipher.adversarial = None
+    return outs[0] == outs[1] and (outs[0] is None) == (not rfc_accepts(pt, 8))
 
 
 @ob('O4.1-short', 'integrity-protected data, decrypted strings shorter than prefix+MDC: never accepted unless the last 22 octets are D3 14 || hash of everything '
@@ -280,6 +303,45 @@ def passphrase_separation(p1: str, p2: str, salt: bytes) -> bool:
     return (fed[0] != fed[1]) or p1 == p2
 
 
+PWS = ('pw', 'pw\udc80', '\ud800pw', 'p\udfffw', 'pw ', 'Pw', 'pw\x00', 'p\u1e83', 'pw\udc80\udc81', '')
+
+
+def _fed_for(pw):
+    from pgpy.packet.fields import String2Key
+    s = String2Key()
+    s.usage = 254
+    s.encalg = 7
+    s.specifier = 1
+    s.halg = 2
+    s.salt = bytearray(b'saltsalt')
+    _Rec.log = []
+    try:
+        encfix.REAL_DERIVE_KEY(s, pw)
+    except (ValueError, TypeError):            # a string that has no UTF-8 form derives nothing: decryption with it raises
+        return None
+    return [r.data for r in _Rec.log][-1]
+
+
+@ob('O4.7', 'strings that are not well-formed text (lone surrogate code points, as os.fsdecode / sys.argv produce for stray octets) never act as another passphrase: '
+            'they derive nothing (an error) or a different key-derivation input than every other passphrase of the menu',
+    'two passphrases by symbolic index from 10 (a passphrase with a lone surrogate appended / prepended / inserted, two of them, trailing blank, case, NUL, combining form, empty); real derive_key with a recording hash; native per path',
+    cond_timeout={'q': 200, 't': 600})
+def passphrase_separation_odd(i: int, j: int) -> bool:
+    """
+    pre: 0 <= i < 10 and 0 <= j < 10
+    post: _
+    """
+    a = b = 0
+    for k in range(10):
+        if i == k:
+            a = k
+        if j == k:
+            b = k
+    with native():
+        fa, fb = _fed_for(PWS[a]), _fed_for(PWS[b])
+        return a == b or fa is None or fb is None or fa != fb
+
+
 @ob('O4.reach', 'reachability witnesses (must be REFUTED): the accepting paths of O4.1/O4.2/O4.4 are reachable', 'as the guarded obligations',
     cond_timeout={'q': 200, 't': 200}, expect='refute', partitions=[['k == %d' % i] for i in range(3)])
 def never_accepts(k: int, body: bytes) -> bool:
@@ -334,7 +396,7 @@ def _good_pt(bs, tail=b'Z'):
     return pre + b'\xd3\x14' + inj_digest(pre + b'\xd3\x14')
 
 
-SANITY = ['seipd_accept(8, _good_pt(8, b"0123456789"))', 'seipd_accept(8, _good_pt(8, b"012345678") + b"x")', 'seipd_accept(16, _good_pt(16, b"01"))',
+SANITY = ['passphrase_separation_odd(0, 1)', 'passphrase_separation_odd(3, 0)', 'passphrase_separation_odd(1, 8)', 'passphrase_separation_odd(9, 2)'] + ['seipd_accept(8, _good_pt(8, b"0123456789"))', 'seipd_accept(8, _good_pt(8, b"012345678") + b"x")', 'seipd_accept(16, _good_pt(16, b"01"))',
           'seipd_accept(8, bytes(32))', 'seipd_short(b"")', 'seipd_short(bytes(31))', 'seipd_short(b"\\xd3\\x14" + bytes(20))', 'seipd_short(b"\\xd3\\x14\\xd3\\x14" + bytes(17) + b"\\x02")',
           'pkesk_accept(7, bytes(16), 0, 0, 0)', 'pkesk_accept(7, bytes(16), 0, 1, 0)', 'pkesk_accept(9, b"\\x01" * 32, 0, 32, 0)',
           'pkesk_accept(200, bytes(16), 0, 0, 0)', 'pkesk_accept(7, bytes(15), 0, 0, -1)', 'pkesk_accept(7, bytes(17), 0, 0, 1)',
